@@ -402,6 +402,74 @@ fn conv_case(w: &mut impl std::io::Write, r: &mut Rng, which: u64) {
             if &*sentinel != guard_text { bad("an earlier allocation changed during the conversions", &sentinel, guard_text); }
             writeln!(w, "S fm convert;in={};out={}", list(s.as_bytes()), list(want.as_bytes())).unwrap();
         }
+        8 | 9 => {
+            // the trait surface of the string types against std::string::String
+            use std::collections::hash_map::DefaultHasher;
+            use std::hash::{Hash, Hasher};
+            let a = gen_string(r, 7);
+            let b = if r.coin(1, 4) { a.clone() } else { gen_string(r, 7) };
+            let cs: Vec<char> = gen_string(r, 5).chars().collect();
+            let head = format!("X strs tr traits a={a:?} b={b:?}");
+            let mut bad = |what: &str, got: String, want: String| { if got != want { writeln!(w, "{head} :: {what}: {got:?} instead of std::string::String's {want:?}").unwrap(); } };
+            let hash_of = |x: &dyn Fn(&mut DefaultHasher)| { let mut h = DefaultHasher::new(); x(&mut h); h.finish() };
+            let mut b2: Bump = Bump::new();
+            let mut want = a.clone();
+            let mut bs: BumpString<&Bump> = BumpString::from_str_in(&a, &bump);
+            let mut fs = FixedBumpString::with_capacity_in(16 * (a.len() + b.len() + 4 * cs.len()) + 256, &bump);
+            fs.push_str(&a);
+            {
+                let mut ms: MutBumpString<&mut Bump> = MutBumpString::from_str_in(&a, &mut b2);
+                // fmt::Write
+                want.write_str(&b).unwrap(); bs.write_str(&b).unwrap(); fs.write_str(&b).unwrap(); ms.write_str(&b).unwrap();
+                for c in &cs { want.write_char(*c).unwrap(); bs.write_char(*c).unwrap(); fs.write_char(*c).unwrap(); ms.write_char(*c).unwrap(); }
+                write!(want, "{:>5}|{:?}", cs.len(), b).unwrap(); write!(bs, "{:>5}|{:?}", cs.len(), b).unwrap();
+                write!(fs, "{:>5}|{:?}", cs.len(), b).unwrap(); write!(ms, "{:>5}|{:?}", cs.len(), b).unwrap();
+                bad("fmt::Write (BumpString)", bs.as_str().into(), want.clone());
+                bad("fmt::Write (FixedBumpString)", fs.as_str().into(), want.clone());
+                bad("fmt::Write (MutBumpString)", ms.as_str().into(), want.clone());
+                // Extend
+                want.extend(cs.iter().copied()); bs.extend(cs.iter().copied()); fs.extend(cs.iter().copied()); ms.extend(cs.iter().copied());
+                want.extend(cs.iter()); bs.extend(cs.iter()); fs.extend(cs.iter()); ms.extend(cs.iter());
+                want.extend([a.as_str(), "", b.as_str()]); bs.extend([a.as_str(), "", b.as_str()]); fs.extend([a.as_str(), "", b.as_str()]); ms.extend([a.as_str(), "", b.as_str()]);
+                bad("Extend<char> / Extend<&char> / Extend<&str> (BumpString)", bs.as_str().into(), want.clone());
+                bad("Extend<char> / Extend<&char> / Extend<&str> (FixedBumpString)", fs.as_str().into(), want.clone());
+                bad("Extend<char> / Extend<&char> / Extend<&str> (MutBumpString)", ms.as_str().into(), want.clone());
+                bad("Display (MutBumpString)", format!("{ms}"), format!("{want}"));
+                bad("Debug (MutBumpString)", format!("{ms:?}"), format!("{want:?}"));
+                bad("Hash (MutBumpString)", hash_of(&|h| ms.hash(h)).to_string(), hash_of(&|h| want.hash(h)).to_string());
+            }
+            // += and +
+            want += &b; bs += &b;
+            let bs = bs + a.as_str(); want = want + a.as_str();
+            bad("AddAssign<&str> / Add<&str>", bs.as_str().into(), want.clone());
+            bad("Display", format!("{bs}|{fs}"), format!("{want}|{}", fs.as_str()));
+            bad("Debug", format!("{bs:?}"), format!("{want:?}"));
+            bad("Hash", hash_of(&|h| bs.hash(h)).to_string(), hash_of(&|h| want.hash(h)).to_string());
+            let cl = bs.clone();
+            bad("Clone", cl.as_str().into(), want.clone());
+            if !want.is_empty() && cl.as_ptr() == bs.as_ptr() { bad("Clone shares the buffer", "same".into(), "different".into()); }
+            let std_s: String = cl.into();
+            bad("From<BumpString> for String", std_s, want.clone());
+            // comparisons
+            let xa: BumpString<&Bump> = BumpString::from_str_in(&a, &bump);
+            let xb: BumpString<&Bump> = BumpString::from_str_in(&b, &bump);
+            bad("PartialEq", format!("{} {} {}", xa == xb, xa != xb, xa == *b.as_str()), format!("{} {} {}", a == b, a != b, a == b));
+            bad("Ord / PartialOrd", format!("{:?} {:?} {} {} {} {}", xa.cmp(&xb), xa.partial_cmp(&xb), xa < xb, xa <= xb, xa > xb, xa >= xb),
+                format!("{:?} {:?} {} {} {} {}", a.cmp(&b), a.partial_cmp(&b), a < b, a <= b, a > b, a >= b));
+            let fa = { let mut f = FixedBumpString::with_capacity_in(a.len(), &bump); f.push_str(&a); f };
+            let fb = { let mut f = FixedBumpString::with_capacity_in(b.len(), &bump); f.push_str(&b); f };
+            bad("PartialEq / Ord (FixedBumpString)", format!("{} {:?} {} {}", fa == fb, fa.cmp(&fb), fa < fb, fa >= fb), format!("{} {:?} {} {}", a == b, a.cmp(&b), a < b, a >= b));
+            { let s: &str = xa.as_ref(); let t: &str = std::borrow::Borrow::borrow(&xa); bad("AsRef<str> / Borrow<str>", format!("{s}|{t}"), format!("{a}|{a}")); }
+            if let Some((i, _)) = a.char_indices().nth(1) { bad("Index<RangeFrom>", xa[i..].into(), a[i..].into()); }
+            // macros
+            let n = r.next() as i32;
+            bad("bump_format!", bump_scope::bump_format!(in &bump, "{a}/{n:+}/{:?}", cs).as_str().into(), format!("{a}/{n:+}/{:?}", cs));
+            bad("bump_format!(try)", bump_scope::bump_format!(try in &bump, "{a}/{n:+}").unwrap().as_str().into(), format!("{a}/{n:+}"));
+            bad("bump_format!(in)", bump_scope::bump_format!(in &bump).as_str().into(), String::new());
+            bad("mut_bump_format!", bump_scope::mut_bump_format!(in &mut b2, "{a}/{n:+}/{:?}", cs).as_str().into(), format!("{a}/{n:+}/{:?}", cs));
+            bad("mut_bump_format!(try)", bump_scope::mut_bump_format!(try in &mut b2, "{b}{n}").unwrap().as_str().into(), format!("{b}{n}"));
+            writeln!(w, "S fm traits;in={};out={}", list(a.as_bytes()), list(want.as_bytes())).unwrap();
+        }
         _ => {
             // formatting: the same Display/Debug output as std
             let s = gen_string(r, 6);
@@ -547,7 +615,7 @@ fn main() {
     let kinds = ["bb", "fs", "bs", "ms"];
     for case in 0..cases {
         if case % 4 == 3 {
-            let which = r.below(8);
+            let which = r.below(10);
             conv_case(&mut w, &mut r, which);
             continue;
         }
